@@ -33,6 +33,21 @@ CHECKS = {
    note="'no writes' judged by file bytes + in_transaction + logical content from a fresh process; inputs sampled",
    tech="deterministic simulation: seeded read/refused-write histories with crash and sql-error injection, byte- and content-level observers",
    ref="DESIGN.md §5 C19"),
+ "C14": dict(level="exploration",
+   text="Seeded files interleaving directives, comments, blank lines, features and FASTA tails, with directives before/inside/after "
+        "the dialect-peek window; the two-pass read protocol and the hand-off of the directive list to the importer are observed "
+        "through DataIterator (1-2 passes), create_db (path/from_string), a second handle, and a fresh process after normal exit "
+        "or crash-exit. Sampled inputs; persistence and vantage points simulated.",
+   note="only truly empty lines as blanks; sqlite commit atomic; inputs sampled",
+   tech="deterministic simulation: seeded two-pass stream protocol runs with restart/crash-exit and multi-vantage observation vs directive ledger",
+   ref="DESIGN.md §5 C14"),
+ "C13": dict(level="exploration",
+   text="One annotation driven through all input forms with instrumented one-shot sources (delivery ledger), instrumented transforms "
+        "(call ledger), checklines inside/at/beyond the input, early EOF and source failures placed relative to the peek window; "
+        "stored database compared with the path form's; inspect() against an independent count.",
+   note="inputs sampled; printed lines not compared across forms; re-iterables hiding one-shot iterators not generated",
+   tech="deterministic simulation: instrumented one-shot streams with EOF/failure injection at chosen positions, exactly-once delivery and call ledgers",
+   ref="DESIGN.md §5 C13"),
 }
 
 NA = {
